@@ -54,6 +54,8 @@ MENU = [
     ("inherit-multiple", "class A1: ...\nclass M1: ...\nclass D1(A1, M1): ...\n"),
     ("inherit-imported", "from pkg.sib import SibClass as _Base\nclass FromSib(_Base):\n    extra = 1\n"),
     ("inherit-imported-multi", "from pkg.sib import SibClass, Mixin\nclass Both(SibClass, Mixin): ...\n"),
+    ("inherit-dotted-3", "import pkg.sib\nclass Deep3(pkg.sib.SibClass): ...\n"),
+    ("inherit-dotted-nested", "class O3:\n    class M3:\n        class I3: ...\nclass FromNested(O3.M3.I3): ...\n"),
     ("attr-plain", "X = 1"),
     ("attr-annotated", "Y: int = 2"),
     ("attr-collections", "Z = [1, 2]\nW = {'a': 1}\nT = (1, 2)"),
